@@ -1,8 +1,5 @@
 import Ebu.Spec.Bus
-import Ebu.Proofs.BusRefine
-import Ebu.Proofs.BusFrame
 import Ebu.Proofs.BusPersist
-import Ebu.Proofs.BusObs
 /-!
 C09 — Every publish on a persistent bus is recorded once, before it is delivered
 
